@@ -184,7 +184,8 @@ PROPS = {
     },
     "C13": {
         "rules": [r_reset.run_counts, r_viterbi.pred, r_misc.enumall, r_misc.sortcmp, r_fmt.mapping_files,
-                  kind_scope("mapper", "worker", "lattice", "dictionary::connector", "dictionary::Dictionary"), r_kind.bins("map-bin")],
+                  kind_scope("mapper", "worker", "lattice", "dictionary::connector", "dictionary::Dictionary"), r_kind.bins("map-bin"),
+                  r_map.run, r_scorer.rowrange],
         "explanation": "RESET(W2, counts scope): update_connid_counts reads only a lattice that "
                        "the current reset_sentence/tokenize refreshed (or returns for an empty "
                        "sentence); PRED: each counted (right word, left word) pair takes the left "
@@ -511,7 +512,7 @@ _ADDED2 = {
     "C05": "SIMDBUILD (AVX2 build): U31x8::decode and to_simd_vec build their vector by an in-order load of the whole (padded) array. LANES: U31x8::encode writes lanes 0..7 in order in both build configurations.",
     "C07": "ACCUM (portable and AVX2 builds): accumulate_cost pairs keys1[i] with keys2[i] through plain zips (no skip/rev/take), starts at zero and only adds lookup results; the AVX2 build sums lanes 0..7 once each. SCORERCHK (AVX2) also requires base = bases[key1] gathered under key1 < bases_len, zero for masked-out lanes and the 4-byte gather scale. LANES and SIMDBUILD as for C05. CSVROW as for C17 (cells of bigram.right/left lines). KIND over compile's main: the readers opened from --bigram-right-in / --bigram-left-in reach the builder parameters of their own side.",
     "C06": "KIND over map's main: the list read from *.lmap is the left mapping argument and *.rmap the right one.",
-    "C13": "KIND over map's main as for C06 (the files reorder writes are consumed on their own side).",
+    "C13": "The C06 rules (MAP*, ROWRANGE): the property's last clause - the mapped dictionary tokenizes identically - is C06 applied to the mapping the statistics produce, so every rule that decides C06 is part of this check. PRED also requires the counted right nodes to cover the node lists and EOS, whether in one loop or two. KIND over map's main as for C06 (the files reorder writes are consumed on their own side).",
     "C14": "USERROW: every user row read by read_user_lexicon passes through extract_feature_set and add_feature_set in its own loop iteration. QUOTER also requires the input to advance by the consumed count nin and each write to be cut at the produced count nout. KIND over dictgen's main: writers created with the .left / .right suffixes reach write_bigram_details' parameters of their own side.",
     "C17": "RULECELLS: parse_rewrite_rule returns every comma-separated cell of both columns (nothing is popped, trimmed or filtered). CSVROW: parse_csv_row appends every decoded chunk (OutputFull included), emits the accumulated cell on every Field/InputEmpty/End outcome - the empty last cell too - and advances the input by the consumed count.",
     "C18": "LABELBASE (the C14 rule): the ids written for lexicon, unknown and user rows are those of the feature set the trainer's label names - user rows through the stored label. CSVROW as for C17 (template column numbers). FIRSTMATCH-* (the C17 rules): templates expand the *rewritten* features, so a rewriter that applies a later rule changes every expansion.",
